@@ -10,6 +10,8 @@ use crate::engine::{guarded, Sys};
 
 pub struct SrModel<S: Sys> {
     pub init: S,
+    /// watchdog slot of the unit that asked for the cross-check (stateright works on its own threads)
+    pub beat: Option<std::sync::Arc<std::sync::atomic::AtomicU64>>,
 }
 
 #[derive(Clone)]
@@ -55,6 +57,7 @@ where
     }
 
     fn next_state(&self, st: &Self::State, a: Self::Action) -> Option<Self::State> {
+        crate::engine::tick(&self.beat);
         let mut n = st.s.clone();
         match guarded(|| n.step(&a)) {
             Ok(Ok(())) => Some(SrState { key: n.key(), s: n, bad: false }),
@@ -89,6 +92,6 @@ where
     S: Sys + Send + Sync + 'static,
     S::Act: Send + Sync + PartialEq + 'static,
 {
-    let checker = SrModel { init }.checker().threads(1).spawn_bfs().join();
+    let checker = SrModel { init, beat: crate::engine::current_beat() }.checker().threads(1).spawn_bfs().join();
     checker.unique_state_count()
 }
